@@ -224,6 +224,9 @@ def run_native(exe, args, timeout=120):
         if line.startswith('WITNESS '):
             w = json.loads(line[8:])
             return {'found': True, 'input': w, 'replay_kind': os.path.basename(exe)}
+    if pr.returncode != 0:
+        # a search that crashed or stopped without reporting is NOT a pass
+        return {'found': False, 'error': 'bounded search ended with exit %s without a WITNESS line: %s' % (pr.returncode, (pr.stderr or pr.stdout).strip()[-300:])}
     return {'found': False, 'searched': pr.stdout.strip()[-300:]}
 
 
